@@ -290,6 +290,23 @@ def functor_actor(ctx) -> None:
     ctx.check(ret is not None and core.src(ret.value) == '((self.actor, *self.args), dict(self.kwargs))', 'R-PICKLE', sp, 'a pickled builder ships all its keyword arguments (a None that overrides a default included)', sp.node, key='Spec:getnewargs-all')
 
 
+def params_merge(ctx) -> None:
+    """``set_params(**some)`` changes the named hyper-parameters and keeps the others: the decorator-made actors store their
+    parameters in ``self._kwargs`` and *update* it - re-binding it to the keywords of one call drops every builder-supplied
+    parameter that call did not repeat."""
+    prog = ctx.prog
+    n = 0
+    for fn in prog.functions(['forml.pipeline.wrap._actor']):
+        if fn.name != 'set_params':
+            continue
+        n += 1
+        rebinds = [st for st in core.walk_local(fn.node) if isinstance(st, ast.Assign) and any(core.src(t).startswith('self._') for t in st.targets) and not any(isinstance(t, ast.Subscript) for t in st.targets)]
+        updates = [c for c in core.walk_local(fn.node) if isinstance(c, ast.Call) and isinstance(c.func, ast.Attribute) and c.func.attr == 'update' and core.src(c.func.value).startswith('self._')]
+        delegates = [c for c in core.walk_local(fn.node) if isinstance(c, ast.Call) and isinstance(c.func, ast.Attribute) and c.func.attr == 'set_params']
+        ctx.check(not rebinds and (bool(updates) or bool(delegates)), 'C13.params-merge', fn, f'{fn.qual} merges the given parameters into the kept ones (update / delegation), never re-binds the store ({[core.src(x)[:40] for x in rebinds]})', rebinds[0] if rebinds else fn.node, key=f'merge:{fn.qual}')
+    ctx.floor('C13.params-merge', n, 1)
+
+
 def mapping_first(ctx) -> None:
     """The declared mapping of a class-wrapped actor wins over the origin's own attributes: ``Class.Actor.__getattribute__``
     falls back to ``getattr(self._origin, item)`` only for names the mapping does not translate - otherwise an origin that
@@ -318,4 +335,5 @@ def run(ctx) -> None:
     # the wrappers delegate by *presence* of an origin attribute (hasattr), never by the truth of its value: a falsy state or
     # parameter of the origin must not fall back to the wrapper's own attribute
     ctx.floor('R-ATTRPRESENCE', shared.r_attr_presence(ctx, ctx.prog.functions([m for m in ctx.prog.modules if m.startswith(('forml.flow._task', 'forml.pipeline.wrap', 'forml.flow._code.target', 'forml.pipeline.payload'))])), 1)
+    params_merge(ctx)
     mapping_first(ctx)
